@@ -493,7 +493,235 @@ theorem mdelta_foreign (q : σ) {a : α} (ha : a ∉ syms) : mdelta kept trans (
       exact fun hk => ha (H.min.keys q r hr a hk)
     simp [mdelta, hr, this]
 
+/-! #### the quotient when some block avoids the trap -/
+
+omit H in
+theorem quotOf_of_nonempty (hne : (goodBlocks p).isEmpty = false) :
+    quotOf p syms trans init finals =
+      { states := (goodBlocks p).map bname, syms := syms,
+        trans := (goodBlocks p).map fun b => (bname b, qrow (goodBlocks p) trans b),
+        init := (nameOfIn (goodBlocks p) init).getD MinName.zero,
+        finals := dedup (finals.filterMap (nameOfIn (goodBlocks p))),
+        allowPartial := ((goodBlocks p).map fun b => (bname b, qrow (goodBlocks p) trans b)).any
+          fun kv => kv.2.length != syms.length } := by
+  unfold quotOf
+  rw [if_neg (by simp [hne])]
+
+omit H in
+theorem quotOf_of_empty (he : (goodBlocks p).isEmpty = true) :
+    quotOf p syms trans init finals =
+      { states := [MinName.zero], syms := syms,
+        trans := [(MinName.zero, syms.map fun a => (a, MinName.zero))],
+        init := MinName.zero, finals := [], allowPartial := false } := by
+  unfold quotOf
+  rw [if_pos he]
+
+theorem quotOf_row (hne : (goodBlocks p).isEmpty = false) {b : Nat × List (Option σ)}
+    (hb : b ∈ goodBlocks p) :
+    (quotOf p syms trans init finals).row (bname b) = qrow (goodBlocks p) trans b := by
+  unfold row row?
+  rw [quotOf_of_nonempty hne]
+  simp only
+  rw [alookup_map_of_inj bname (qrow (goodBlocks p) trans) (goodBlocks p) b hb
+    fun c hc h => bname_inj H hc hb h]
+  rfl
+
+omit H in
+theorem quotOf_row_zero (hne : (goodBlocks p).isEmpty = false) :
+    (quotOf p syms trans init finals).row MinName.zero = [] := by
+  unfold row row?
+  rw [quotOf_of_nonempty hne]
+  simp only
+  have : alookup MinName.zero
+      ((goodBlocks p).map fun b => (bname b, qrow (goodBlocks p) trans b)) = none := by
+    rw [alookup_eq_none_iff]
+    simp [akeys, bname]
+  rw [this]; rfl
+
+theorem row_nodup (r : σ) : (akeys ((alookup r trans).getD [])).Nodup := by
+  cases hr : alookup r trans with
+  | none => simp [akeys]
+  | some rr => exact H.rows_nodup r rr hr
+
+theorem quotOf_step_rep (hne : (goodBlocks p).isEmpty = false) {b : Nat × List (Option σ)}
+    (hb : b ∈ goodBlocks p) {r : σ} (hr : (blockStates b.2).head? = some r) (a : α) :
+    (quotOf p syms trans init finals).step? (some (bname b)) a =
+      cls (goodBlocks p) (mdelta kept trans (some r) a) := by
+  show alookup a ((quotOf p syms trans init finals).row (bname b)) = _
+  rw [quotOf_row H hne hb]
+  have : qrow (goodBlocks p) trans b = qmap (nameOfIn (goodBlocks p)) ((alookup r trans).getD []) := by
+    simp only [qrow, hr]
+  rw [this, alookup_qmap _ _ (row_nodup H r)]
+  cases hl : alookup a ((alookup r trans).getD []) with
+  | none => simp [mdelta, hl, cls]
+  | some t =>
+    by_cases ht : t ∈ kept
+    · simp [mdelta, hl, ht, cls]
+    · have : nameOfIn (goodBlocks p) t = none := by
+        rw [nameOfIn_eq_none]
+        intro c hc htc
+        obtain ⟨q, hq, he⟩ := good_elem H hc htc
+        cases he
+        exact ht hq
+      simp [mdelta, hl, ht, cls, this]
+
+/-- One move of the quotient follows the class of one move of the system. -/
+theorem quotOf_step (hne : (goodBlocks p).isEmpty = false) {x : Option σ} (hx : Dom kept x) (a : α) :
+    (quotOf p syms trans init finals).step? (cls (goodBlocks p) x) a =
+      cls (goodBlocks p) (mdelta kept trans x a) := by
+  cases x with
+  | none => rfl
+  | some q =>
+    have hq : q ∈ kept := hx q rfl
+    cases hcl : cls (goodBlocks p) (some q) with
+    | none =>
+      obtain ⟨hU', he⟩ := cls_none H hq hcl
+      have he' := he.step kept trans finals a
+      show none = _
+      cases hy : mdelta kept trans (some q) a with
+      | none => rfl
+      | some t =>
+        rw [hy] at he'
+        have ht : t ∈ kept := mdelta_some_mem kept trans hy
+        have := cls_congr H ((mem_muniverse_some kept syms trans).mpr ht) hU' he'
+        rw [this]; rfl
+    | some n =>
+      obtain ⟨b, hb, hqb, hn⟩ := (nameOfIn_eq_some H).mp hcl
+      subst hn
+      obtain ⟨r, hr, hrb, hrk⟩ := good_rep H hb
+      rw [quotOf_step_rep H hne hb hr]
+      have hb' := (mem_goodBlocks.mp hb).1
+      have hUr : some r ∈ muniverse kept syms trans := (mem_muniverse_some kept syms trans).mpr hrk
+      have hUq : some q ∈ muniverse kept syms trans := (mem_muniverse_some kept syms trans).mpr hq
+      have he : MEquiv kept trans finals (some r) (some q) :=
+        (H.same _ hUr _ hUq).mp ⟨b, hb', hrb, hqb⟩
+      by_cases ha : a ∈ syms
+      · exact cls_congr H (mdelta_mem_muniverse kept syms trans hrk ha)
+          (mdelta_mem_muniverse kept syms trans hq ha) (he.step kept trans finals a)
+      · rw [mdelta_foreign H r ha, mdelta_foreign H q ha]
+
+theorem quotOf_run (hne : (goodBlocks p).isEmpty = false) {x : Option σ} (hx : Dom kept x)
+    (w : List α) :
+    (quotOf p syms trans init finals).run (cls (goodBlocks p) x) w =
+      cls (goodBlocks p) (mrun kept trans x w) := by
+  induction w generalizing x with
+  | nil => rfl
+  | cons a w ih =>
+    rw [run_cons, quotOf_step H hne hx, mrun_cons]
+    exact ih (dom_mdelta kept trans x a)
+
+theorem quotOf_isFinal (hne : (goodBlocks p).isEmpty = false) {x : Option σ} (hx : Dom kept x) :
+    (quotOf p syms trans init finals).isFinal (cls (goodBlocks p) x) = mfin finals x := by
+  cases x with
+  | none => rfl
+  | some q =>
+    have hq : q ∈ kept := hx q rfl
+    cases hcl : cls (goodBlocks p) (some q) with
+    | none =>
+      obtain ⟨_, he⟩ := cls_none H hq hcl
+      have := he []
+      simp only [mrun_nil] at this
+      rw [this]; rfl
+    | some n =>
+      show decide (n ∈ (quotOf p syms trans init finals).finals) = decide (q ∈ finals)
+      rw [quotOf_of_nonempty hne]
+      simp only
+      rw [decide_eq_decide, mem_dedup, List.mem_filterMap]
+      constructor
+      · rintro ⟨f, hf, hfn⟩
+        obtain ⟨b, hb, hqb, hn⟩ := (nameOfIn_eq_some H).mp hcl
+        obtain ⟨b', hb', hfb', hn'⟩ := (nameOfIn_eq_some H).mp hfn
+        have : b' = b := bname_inj H hb' hb (hn'.trans hn.symm)
+        subst this
+        have hb'' := (mem_goodBlocks.mp hb).1
+        have hUf : some f ∈ muniverse kept syms trans := (H.part.cover _).mpr ⟨b', hb'', hfb'⟩
+        have hUq : some q ∈ muniverse kept syms trans := (mem_muniverse_some kept syms trans).mpr hq
+        have he := (H.same _ hUf _ hUq).mp ⟨b', hb'', hfb', hqb⟩ []
+        simp only [mrun_nil, mfin, decide_eq_decide] at he
+        exact he.mp hf
+      · intro hf
+        exact ⟨q, hf, hcl⟩
+
+/-- Runs of the quotient from the class of `x` accept exactly what the system accepts from `x`. -/
+theorem quotOf_track (hne : (goodBlocks p).isEmpty = false) {x : Option σ} (hx : Dom kept x)
+    (w : List α) :
+    (quotOf p syms trans init finals).isFinal
+        ((quotOf p syms trans init finals).run (cls (goodBlocks p) x) w) =
+      mfin finals (mrun kept trans x w) := by
+  rw [quotOf_run H hne hx, quotOf_isFinal H hne (dom_mrun kept trans hx w)]
+
+omit H in
+theorem quotOf_zero_dead (hne : (goodBlocks p).isEmpty = false) (w : List α) :
+    (quotOf p syms trans init finals).isFinal
+      ((quotOf p syms trans init finals).run (some MinName.zero) w) = false := by
+  cases w with
+  | nil =>
+    show decide (MinName.zero ∈ (quotOf p syms trans init finals).finals) = false
+    rw [quotOf_of_nonempty hne]
+    simp only
+    rw [decide_eq_false_iff_not, mem_dedup, List.mem_filterMap]
+    rintro ⟨f, _, hf⟩
+    unfold nameOfIn at hf
+    obtain ⟨b, _, hb⟩ := Option.map_eq_some_iff.mp hf
+    cases hb
+  | cons a w =>
+    rw [run_cons]
+    have : (quotOf p syms trans init finals).step? (some MinName.zero) a = none := by
+      show alookup a ((quotOf p syms trans init finals).row MinName.zero) = none
+      rw [quotOf_row_zero hne]; rfl
+    rw [this, run_none]; rfl
+
+/-- **Language of the quotient** (partition as a parameter). -/
+theorem quotOf_accepts (w : List α) :
+    (quotOf p syms trans init finals).accepts w = mfin finals (mrun kept trans (some init) w) := by
+  have hinit : Dom kept (some init) := fun q hq => by cases hq; exact H.min.init_mem
+  cases hne : (goodBlocks p).isEmpty with
+  | false =>
+    cases hcl : cls (goodBlocks p) (some init) with
+    | none =>
+      obtain ⟨_, he⟩ := cls_none H H.min.init_mem hcl
+      rw [he w, mfin_mrun_none]
+      have hi : (quotOf p syms trans init finals).init = MinName.zero := by
+        rw [quotOf_of_nonempty hne]
+        show (nameOfIn (goodBlocks p) init).getD MinName.zero = MinName.zero
+        have : nameOfIn (goodBlocks p) init = none := hcl
+        rw [this]; rfl
+      unfold accepts
+      rw [hi]
+      exact quotOf_zero_dead hne w
+    | some n =>
+      have hi : (quotOf p syms trans init finals).init = n := by
+        rw [quotOf_of_nonempty hne]
+        show (nameOfIn (goodBlocks p) init).getD MinName.zero = n
+        have : nameOfIn (goodBlocks p) init = some n := hcl
+        rw [this]; rfl
+      unfold accepts
+      rw [hi, ← hcl]
+      exact quotOf_track H hne hinit w
+  | true =>
+    have hg : goodBlocks p = [] := List.isEmpty_iff.mp hne
+    have hcl : cls (goodBlocks p) (some init) = none := by
+      show nameOfIn (goodBlocks p) init = none
+      rw [hg]; rfl
+    obtain ⟨_, he⟩ := cls_none H H.min.init_mem hcl
+    rw [he w, mfin_mrun_none, quotOf_of_empty hne]
+    unfold accepts isFinal
+    simp only
+    split <;> simp
+
 end quot
+
+/-- **2a. Language of `minifyCore`**: it accepts exactly the words the refinement system
+`(mdelta, mfin)` accepts from `init`. -/
+theorem minifyCore_accepts {kept : List σ} {syms : List α} {trans : List (σ × List (α × σ))}
+    {init : σ} {finals : List σ} {pick : List Nat → Nat}
+    (hm : MinHyp kept syms trans init finals)
+    (hr : ∀ q r, alookup q trans = some r → (akeys r).Nodup)
+    (hc : HopcroftCorrect kept syms trans finals pick) (w : List α) :
+    (minifyCore kept syms trans init finals pick).accepts w =
+      mfin finals (mrun kept trans (some init) w) := by
+  rw [minifyCore_eq]
+  exact quotOf_accepts (QuotHyp.of_hopcroft hm hr hc) w
 
 end DFA
 end AV
